@@ -133,7 +133,8 @@ func parseProperType(data []byte, v reflect.Value) bool {
 	s := goutil.BytesToString(data)
 	switch v.Kind() {
 	case reflect.String:
-		v.SetString(s)
+		// copy: s aliases data, which callers recycle
+		v.SetString(string(data))
 	case reflect.Bool:
 		bol, err := strconv.ParseBool(s)
 		if err != nil {
@@ -162,7 +163,7 @@ func parseProperType(data []byte, v reflect.Value) bool {
 		if v.Type().Elem().Kind() != reflect.Uint8 {
 			return false
 		}
-		v.SetBytes(data)
+		v.SetBytes(append([]byte(nil), data...))
 	case reflect.Invalid:
 		return true
 	default:
